@@ -15,7 +15,7 @@ import random
 import warnings
 from binascii import unhexlify
 
-from . import vnet
+from . import enums, vnet
 from .clock import text
 
 T1 = {"heater", "plug"}
@@ -112,7 +112,7 @@ _MODE = {"01": 1, "02": 2, "03": 3, "04": 4, "05": 5}
 def device_fields(dev) -> dict:
     g = {"cls": type(dev).__name__, "type": dev.device_type.name, "id": text(dev.device_id), "key": text(dev.device_key),
          "ip": text(dev.ip_address), "mac": text(dev.mac_address), "name": text(dev.name),
-         "state": 1 if dev.device_state.value == "01" else 0}
+         "state": enums.state(dev.device_state)}
     if hasattr(dev, "power_consumption"):
         g["watts"] = dev.power_consumption
         g["amps10"] = int(round(dev.electric_current * 10))
@@ -120,10 +120,10 @@ def device_fields(dev) -> dict:
         g["remaining"] = text(dev.remaining_time)
         g["auto"] = text(dev.auto_shutdown)
     if hasattr(dev, "mode"):
-        g.update(mode=_MODE[dev.mode.value], temp10=int(round(dev.temperature * 10)), target=dev.target_temperature,
-                 fan=int(dev.fan_level.value), swing=int(dev.swing.value), remote=text(dev.remote_id))
+        g.update(mode=enums.mode(dev.mode), temp10=int(round(dev.temperature * 10)), target=dev.target_temperature,
+                 fan=enums.fan(dev.fan_level), swing=enums.swing(dev.swing), remote=text(dev.remote_id))
     if hasattr(dev, "position"):
-        g.update(position=dev.position, direction=list(unhexlify(dev.direction.value)))
+        g.update(position=dev.position, direction=enums.direction(dev.direction))
     return g
 
 
